@@ -452,9 +452,12 @@ Proof.
     + exact H.
     + destruct pid; [|exact H]. apply Inv_queue_ctl_checked. exact H.
     + destruct pid as [id|]; [|exact H].
-      destruct (mem_id id (s_srv s)); [apply Inv_queue_ctl_checked; exact H|].
-      destruct (MAX_INBOUND_QOS2 <=? glen (s_srv s)) eqn:E; apply Inv_queue_ctl_checked; [exact H|].
-      apply Inv_srv; [exact H|]. rewrite glen_app. cbn [glen]. unfold MAX_INBOUND_QOS2 in E. lia.
+      match goal with |- context [queue_ctl_checked s ?a ?dl] =>
+        pose proof (Inv_queue_ctl_checked s a dl H) as Hq; destruct (queue_ctl_checked s a dl) as [s1 hr] end.
+      cbn [fst] in Hq |- *. destruct hr as [b|e]; [|exact Hq].
+      destruct (mem_id id (s_srv s)); cbn [orb]; [exact Hq|].
+      destruct (MAX_INBOUND_QOS2 <=? glen (s_srv s)) eqn:E; [exact Hq|].
+      apply Inv_srv; [exact Hq|]. rewrite glen_app. cbn [glen]. unfold MAX_INBOUND_QOS2 in E. lia.
   - (* PUBACK *)
     destruct (ack_packet (s_ob s) pid) as [o found] eqn:E.
     pose proof (OInv_ack_packet (s_ob s) pid (inv_ob _ H)) as HO. rewrite E in HO. cbn [fst] in HO.
